@@ -31,9 +31,14 @@ def box_blocks(repo, res):
         mname = f'{pre}_mask'
         d0 = asg.get(dname, [None])[0]
         m0 = asg.get(mname, [None])[0]
-        if d0 is None or m0 is None:
+        # NaN fill with the matching mask before the statistics
+        fills = [n for n in ast.walk(f.node) if isinstance(n, ast.Assign) and isinstance(n.targets[0], ast.Subscript)
+                 and unparse(n.targets[0].value, 0) == dname and nf(n.value) == nf_text('np.nan')]
+        direct = m0 is None and len(fills) == 1          # the mask cut is used in place: `X_data[mask[region]] = np.nan`
+        if d0 is None or (m0 is None and not direct):
             raise AnalysisError(f'_calculate_stats: block `{pre}` not found')
-        dsrc, msrc = unparse(d0.value, 0), unparse(m0.value, 0)
+        dsrc = unparse(d0.value, 0)
+        msrc = unparse(fills[0].targets[0].slice, 0) if direct else unparse(m0.value, 0)
         ok_d = f'self._data{sl}.copy()' in dsrc
         ok_m = msrc in (f'mask{sl}', f'reshape_as_blocks(mask{sl}, self.box_size)')
         res.oblige('LP4', f'_calculate_stats {pre} block: data and mask cut with the same region {sl}, data copied', ok_d and ok_m,
@@ -42,10 +47,7 @@ def box_blocks(repo, res):
             res.add(Finding('LP4', f.fullname, f'{pre} block region', f'{f.module.relpath}:{d0.lineno}',
                             f'_calculate_stats: the {pre} block must take `self._data{sl}.copy()` and `mask{sl}` (same region, on a '
                             f'copy); found data `{dsrc}` and mask `{msrc}`: masked pixels of another region would be blanked', {}))
-        # NaN fill with the matching mask before the statistics
-        fills = [n for n in ast.walk(f.node) if isinstance(n, ast.Assign) and isinstance(n.targets[0], ast.Subscript)
-                 and unparse(n.targets[0].value, 0) == dname and nf(n.value) == nf_text('np.nan')]
-        ok = len(fills) == 1 and unparse(fills[0].targets[0].slice, 0) == mname
+        ok = len(fills) == 1 and (direct or unparse(fills[0].targets[0].slice, 0) == mname)
         res.oblige('LP4', f'_calculate_stats {pre} block: masked pixels set to NaN with its own mask', ok, nontrivial=True)
         if not ok:
             res.add(Finding('LP4', f.fullname, f'{pre} block NaN fill', f'{f.module.relpath}:{d0.lineno}',
